@@ -3,7 +3,7 @@
    of every defined type with, per method, membership in the method set of T; the signature type terms. *)
 From Coq Require Import List String ZArith Bool.
 From GG Require Import Base.Strs Model.GoTypes Model.GoAst Model.Annots Model.Analyze Model.Impl Extracted Exec Proofs.ImplProofs.
-From GG Require Proofs.DiagProofs Proofs.WholeProofs.
+From GG Require Proofs.DiagProofs Proofs.WholeProofs Proofs.OpsProofs.
 Import ListNotations.
 Local Open Scope string_scope.
 
@@ -115,6 +115,17 @@ Example C05_nonvacuous :
   impl_candidates (ex_tt (mk_sig [YPtr (YPtr tint); tbytes2]) false) "x" [] [ex_ann true] = [].
 Proof. vm_compute. repeat split; reflexivity. Qed.
 
+(* the two input conditions used above - every method set lists a method identity once; every import of a type-checked file
+   has a known package name - follow from a boolean that the harness evaluates on every serialised package *)
+Theorem C05_inputs_checked :
+  forall p, OpsProofs.x_impl_inputs_ok p = true ->
+    (forall td, In td (tt_types (p_types p)) -> NoDup (map tm_id (td_methods td))) /\
+    (forall f, In f (p_files p) -> all_known (f_imports f)).
+Proof.
+  intros p H. destruct (OpsProofs.x_impl_inputs_ok_sound p H) as [H1 H2]. split; [exact H1|].
+  intros f Hf i Hi. exact (H2 f i Hf Hi).
+Qed.
+
 (* END TO END: in the result of the whole per-package analysis the diagnostics with an IMPL code are exactly the three-phase
    @implements check above, run on the annotations the reader collected from this package (own), filtered by the suppression the
    package's @ignore comments and exclude-checks give *)
@@ -145,3 +156,4 @@ Print Assumptions C05_identical_structure.
 Print Assumptions C05_signature_matching_exact.
 Print Assumptions C05_signature_matching.
 Print Assumptions C05_whole_analysis.
+Print Assumptions C05_inputs_checked.
